@@ -434,15 +434,39 @@ end PestTyped.Src
 def translate_vis(src=None):
     src = open(VIS_SRC).read() if src is None else src
     code = strip_comments(src)
-    heads = list(re.finditer(r"\bfn\s+visualize_ws_and_cntrl\s*\(\s*([a-z_][a-z0-9_]*)\s*:\s*&\s*str\s*\)\s*->\s*String\s*\{", code))
-    if len(heads) != 1:
-        raise Unsupported(f"expected exactly one `fn visualize_ws_and_cntrl(<x>: &str) -> String`, found {len(heads)}")
-    h = heads[0]
+    # The private function may be renamed: it is identified as THE function `fn <name>(<x>: &str) -> String` of the
+    # non-test code whose body contains a `match` with an arm `'<char>' => '<U+24xx picture>'`, and it must be called
+    # from elsewhere in the non-test code (the display code).  Two such functions, or none, are refused.
+    test_at = re.search(r"#\s*\[\s*cfg\s*\(\s*test\s*\)\s*\]", code)
+    nontest = code[:test_at.start()] if test_at else code
+    cands = []
+    for h0 in re.finditer(r"\bfn\s+([A-Za-z_][A-Za-z0-9_]*)\s*\(\s*([a-z_][a-z0-9_]*)\s*:\s*&\s*str\s*\)\s*->\s*String\s*\{", nontest):
+        d0, i0 = 1, h0.end()
+        while d0 and i0 < len(nontest):
+            if CHARLIT.match(nontest, i0):
+                i0 = CHARLIT.match(nontest, i0).end()
+                continue
+            d0 += {"{": 1, "}": -1}.get(nontest[i0], 0)
+            i0 += 1
+        body0 = nontest[h0.end():i0]
+        pics = [m0 for m0 in re.finditer(r"(" + CHARLIT.pattern + r")\s*=>\s*(" + CHARLIT.pattern + r")", body0)
+                if 0x2400 <= char_value(m0.group(3)) <= 0x243f]
+        if re.search(r"\bmatch\b", body0) and pics:
+            cands.append((h0, i0))
+    if len(cands) != 1:
+        raise Unsupported(f"expected exactly one `fn <name>(<x>: &str) -> String` whose `match` maps characters to control "
+                          f"pictures (U+24xx), found {len(cands)}")
+    h, end0 = cands[0]
+    fname = h.group(1)
+    rest_code = nontest[:h.start()] + nontest[end0:]
+    if not re.search(r"\b" + re.escape(fname) + r"\s*\(", rest_code):
+        raise Unsupported(f"`{fname}` is not called from the display code")
+    h = re.compile(r"\bfn\s+" + re.escape(fname) + r"\s*\(\s*([a-z_][a-z0-9_]*)\s*:\s*&\s*str\s*\)\s*->\s*String\s*\{").search(code)
     arg = h.group(1)
     depth, i = 1, h.end()
     while depth:
         if i >= len(code):
-            raise Unsupported("unbalanced braces in visualize_ws_and_cntrl")
+            raise Unsupported("unbalanced braces in " + fname)
         if CHARLIT.match(code, i):
             i = CHARLIT.match(code, i).end()
             continue
